@@ -213,6 +213,8 @@ def _pure(e: ast.AST) -> bool:
         return all(_pure(x) for x in e.elts)
     if isinstance(e, ast.Dict):
         return all(isinstance(k, ast.Constant) for k in e.keys) and all(_pure(x) for x in e.values)
+    if isinstance(e, ast.BoolOp):
+        return all(_pure(x) for x in e.values)  # `self._name or self._idx`: reads only
     return False
 
 
@@ -425,6 +427,43 @@ class _LoopShapes(ast.NodeTransformer):
         return node
 
 
+class _IfAssign(ast.NodeTransformer):
+    """`if C: x = A` / `else: x = B` (each arm exactly one plain assignment to the same local name) reads `x = A if C else B`:
+    C is evaluated, then exactly one of A and B, then x is bound - the same steps in the same order.  Together with the folding of
+    single-use temporaries this makes a reply computed by an if/else read like the conditional expression it is."""
+
+    def __init__(self):
+        self.rewritten = 0
+
+    @staticmethod
+    def _single(body):
+        if len(body) != 1:
+            return None
+        st = body[0]
+        if isinstance(st, ast.Assign) and len(st.targets) == 1 and isinstance(st.targets[0], ast.Name):
+            return st.targets[0].id, st.value
+        if isinstance(st, ast.If):
+            return None
+        return None
+
+    def visit_If(self, node: ast.If):
+        self.generic_visit(node)
+        a = self._single(node.body)
+        b = self._single(node.orelse)
+        if b is None and len(node.orelse) == 1 and isinstance(node.orelse[0], ast.Assign) is False:
+            return node
+        if a is None or b is None or a[0] != b[0]:
+            return node
+        if any(isinstance(x, (ast.Await, ast.Yield, ast.YieldFrom, ast.NamedExpr)) for v in (a[1], b[1], node.test) for x in ast.walk(v)):
+            return node  # (awaits keep their own statement: suspension points are judged per statement)
+        self.rewritten += 1
+        new = ast.Assign(targets=[ast.Name(id=a[0], ctx=ast.Store())], value=ast.IfExp(test=node.test, body=a[1], orelse=b[1]))
+        ast.copy_location(new, node)
+        ast.copy_location(new.targets[0], node.body[0].targets[0])
+        ast.copy_location(new.value, node)
+        return new
+
+
 class _BoundAliases:
     """`pop = self._ended.pop` ... `pop(k, None)`: a local bound exactly once to a method of an object named by a plain attribute
     chain, read only as the function of calls, while neither the root name nor any attribute on the chain is assigned in the
@@ -511,6 +550,9 @@ def _clone(e: ast.AST) -> ast.AST:
 def normalise(tree: ast.Module) -> ast.Module:
     ls = _LoopShapes()
     ls.visit(tree)
+    ia = _IfAssign()
+    ia.visit(tree)
+    tree._tpsa_if_assign = ia.rewritten  # type: ignore[attr-defined]
     ba = _BoundAliases()
     ba.visit(tree)
     tree._tpsa_bound_aliases = ba.inlined  # type: ignore[attr-defined]
